@@ -28,7 +28,7 @@ class SetEncoder(encoder.SetEncoder):
         if compType.typeId == univ.Choice.typeId and not compType.tagSet:
             if asn1Spec is None:
                 # the tag of the alternative chosen, through nested untagged CHOICEs
-                return component.effectiveTagSet
+                return encoder.SetEncoder._tagKey(component.effectiveTagSet)
             else:
                 # TODO: move out of sorting key function
                 while asn1Spec.typeId == univ.Choice.typeId and not asn1Spec.tagSet:
@@ -41,10 +41,10 @@ class SetEncoder(encoder.SetEncoder):
                     asn1Spec = asn1Spec.componentType[names[0]].asn1Object
                     component = component[names[0]]
 
-                return asn1Spec.tagSet
+                return encoder.SetEncoder._tagKey(asn1Spec.tagSet)
 
         else:
-            return compType.tagSet
+            return encoder.SetEncoder._tagKey(compType.tagSet)
 
 
 TAG_MAP = encoder.TAG_MAP.copy()
